@@ -1,7 +1,12 @@
-/// chrono::ParseError / ParseResult stand-ins (TRUSTED)
+/// chrono::ParseError / ParseResult stand-ins (TRUSTED); `INVALID` is the lazy static `DateTime::<FixedOffset>::from_str("").unwrap_err()`
 #[derive(Clone, Copy, Debug)]
 pub struct ParseError;
 pub type ParseResult<T> = Result<T, ParseError>;
+pub const INVALID: &'static ParseError = &ParseError;
 pub trait ParseISO8601<T> {
-    fn parse_from_iso8601(s: &str) -> ParseResult<T>;
+//@ fn chronoutil.rs trait ParseISO8601 :: parse_from_iso8601
+//@ props C08
+//@ spec
+        requires latin1_only(s@) //# C08 name=input_is_latin1_so_regex_digits_are_ascii
+//@ end
 }
